@@ -20,12 +20,14 @@ type ChildResult struct {
 	Panic    string // first line of a panic / fatal error, "" if none
 	Races    []RaceReport
 	Dir      string
+	// Hazards: lock acquisitions by a goroutine that already held that lock (reported by the shims before blocking)
+	Hazards []string
 	// BedFailure: heimdall could not bind a listener (port taken) in every attempt - inconclusive, never a verdict
 	BedFailure bool
 }
 
 type RaceReport struct {
-	Key   string `json:"key"`   // pair of outermost heimdall frames (de-duplication key)
+	Key   string `json:"key"` // pair of outermost heimdall frames (de-duplication key)
 	Count int    `json:"count"`
 	Text  string `json:"text"` // first report of this class (truncated)
 }
@@ -68,7 +70,8 @@ func (r *Run) runChildOnce(testName, role string, args map[string]string, timeou
 	cmd.Stdout = f
 	cmd.Stderr = f
 	env := os.Environ()
-	env = append(env, "VERIF_CHILD="+role, "VERIF_RUNDIR="+dir, "VERIF_CHILD_DIR="+dir,
+	hazardFile := filepath.Join(dir, "lock-hazards.txt")
+	env = append(env, "VERIF_CHILD="+role, "VERIF_RUNDIR="+dir, "VERIF_CHILD_DIR="+dir, "VERIF_HAZARD_FILE="+hazardFile,
 		"GORACE=halt_on_error=0 log_path="+filepath.Join(dir, "race"))
 	for k, v := range args {
 		env = append(env, "VERIF_CHILD_"+k+"="+v)
@@ -82,16 +85,11 @@ func (r *Run) runChildOnce(testName, role string, args map[string]string, timeou
 	}
 	done := make(chan error, 1)
 	go func() { done <- cmd.Wait() }()
-	select {
-	case err := <-done:
-		if err != nil {
-			if ee, ok := err.(*exec.ExitError); ok {
-				res.Exit = ee.ExitCode()
-			} else {
-				res.Exit = -1
-			}
-		}
-	case <-time.After(timeout):
+	deadline := time.After(timeout)
+	tick := time.NewTicker(2 * time.Second)
+	defer tick.Stop()
+	var hazardSeen time.Time
+	stop := func() {
 		_ = cmd.Process.Signal(os.Interrupt)
 		_ = cmd.Process.Signal(syscallQuit)
 		select {
@@ -102,6 +100,41 @@ func (r *Run) runChildOnce(testName, role string, args map[string]string, timeou
 		}
 		res.TimedOut = true
 		res.Exit = -2
+	}
+wait:
+	for {
+		select {
+		case err := <-done:
+			if err != nil {
+				if ee, ok := err.(*exec.ExitError); ok {
+					res.Exit = ee.ExitCode()
+				} else {
+					res.Exit = -1
+				}
+			}
+			break wait
+		case <-deadline:
+			stop()
+			break wait
+		case <-tick.C:
+			// the lock shims report a goroutine re-acquiring a lock it holds *before* it blocks; such a child is most
+			// likely deadlocked by now - the finding is the recorded hazard, there is no point in waiting for the watchdog
+			if st, err := os.Stat(hazardFile); err == nil && st.Size() > 0 {
+				if hazardSeen.IsZero() {
+					hazardSeen = time.Now()
+				} else if time.Since(hazardSeen) > 45*time.Second {
+					stop()
+					break wait
+				}
+			}
+		}
+	}
+	if b, err := os.ReadFile(hazardFile); err == nil {
+		for _, l := range strings.Split(strings.TrimSpace(string(b)), "\n") {
+			if _, text, ok := strings.Cut(l, "\t"); ok {
+				res.Hazards = append(res.Hazards, text)
+			}
+		}
 	}
 	res.Panic = firstPanic(out)
 	res.Races = CollectRaces(dir)
